@@ -18,6 +18,7 @@ def run(rep, prog, tier):
     rep.rule('R01.space', 'every index, slice, product, stack and solve of the MNA assembly and of the solution read-back joins equal label spaces (index-space typing)')
     rep.rule('R01.layout', 'coefficient matrix is laid out (N+V) x (N+V), right-hand side (N+V) with N = non-reference nodes, V = ideal voltage sources')
     rep.rule('R01.sign', 'incidence sign table: B +1/-1 at node1/node2, Q -1/+1, Y diagonal +sum / off-diagonal -Y, voltage = phi(node1) - phi(node2); relations between assembly and read-back signs')
+    rep.rule('R01.Y', 'entries of Y: sum of the finite admittances of exactly the branches touching a node / joining a node pair in either terminal order, over the network without its ideal voltage sources')
     rep.rule('R01.solve', 'the solution is solve(A, b) of the assembled system of the object\'s own network; the all-zero fallback is reachable only through an exception of the solver or a NaN result (no scale-dependent singularity pre-check)')
     rep.rule('R01.current', 'branch current by kind: solution entry (ideal voltage source), I (ideal current source), -(I + V/Z) (linear source), V/Z (passive); power = V conj(I)')
     rep.assume('default label mappers (custom mappers are outside the quantifier)')
@@ -30,6 +31,61 @@ def run(rep, prog, tier):
     signs(rep, prog, interps)
     currents(rep, prog)
     solve_path(rep, prog)
+    admittance_sums(rep, prog)
+
+
+def admittance_sums(rep, prog):
+    """the entries of Y are sums of the finite branch admittances over exactly the branches that touch the node / join the node pair
+    (either terminal order), taken from the network without its ideal voltage sources"""
+    from ..api import call
+    env = {'network': A('network'), 'node': A('node'), 'n1': A('n1'), 'n2': A('n2'), 'self': A('self')}
+    m = prog.mod(NA)
+    for fname, args, src in (('admittance_connected_to', [A('network'), A('node')], "sum(b.element.Y for b in network.branches_connected_to(node) if isfinite(b.element.Y))"),
+                             ('admittance_between', [A('network'), A('n1'), A('n2')], "sum([b.element.Y for b in network.branches_between(n1, n2) if isfinite(b.element.Y)])")):
+        f = prog.func(NA, fname)
+        ev = new_ev(prog); ev.assume_finite = False
+        t = call(ev, f, args)
+        e2 = ev.fresh(); e2.assume_finite = False
+        import ast as _ast
+        sp = e2.ev(_ast.parse(src, mode='eval').body, dict({'__parent__': None, 'isfinite': __import__('cc.terms', fromlist=['Ref']).Ref('npfun', None, None, 'isfinite'),
+                                                           'sum': __import__('cc.terms', fromlist=['Ref']).Ref('builtin', None, None, 'sum')}, **env), m, 0)
+        def core(x):
+            # Σ over a generator or a list comprehension is the same sum
+            if isinstance(x, Opq) and x.k and x.k[0] == 'Σ' and isinstance(x.k[1], Comp): return Comp(x.k[1].elt, x.k[1].gens, 'list')
+            return x
+        ok = term_equal(core(t), core(sp))
+        rep.ob('R01.Y', fname, True if ok else (None if has_opaque(t) else False), f'= {t!r:.200}', f.site, lhs=t, rhs=sp)
+    nm = prog.mod('Network.network'); ncls = nm.defs.get('Network')
+    for meth, args, src in (('branches_between', [A('n1'), A('n2')], "[b for b in self.branches if set((b.node1, b.node2)) == set((n1, n2))]"),):
+        mem = prog.find_member(nm, ncls, meth)
+        ev = new_ev(prog)
+        t = ev.call_fn(mem[1], mem[0], [A('self')] + args, {}, {'__parent__': None}, 1)
+        sp = spec(ev, src, env, nm)
+        ok = term_equal(t, sp)
+        rep.ob('R01.Y', f'Network.{meth}', True if ok else (None if has_opaque(t) else False), f'= {t!r:.200}', prog.site(mem[0], mem[1]), lhs=t, rhs=sp)
+    # branches_connected_to: membership test (the subsequent sort does not change the set)
+    mem = prog.find_member(nm, ncls, 'branches_connected_to')
+    fn = mem[1]
+    comps = [n for n in _ast.walk(fn) if isinstance(n, _ast.ListComp)]
+    okc = None
+    if comps:
+        ev = new_ev(prog)
+        t = ev.ev(comps[0], {'__parent__': None, 'self': A('self'), fn.args.args[1].arg: A('node')}, nm, 1)
+        sp = spec(ev, "[b for b in self.branches if b.node1 == node or b.node2 == node]", env, nm)
+        okc = True if term_equal(t, sp) else (None if has_opaque(t) else False)
+    rep.ob('R01.Y', 'Network.branches_connected_to', okc, 'branches with either terminal on the node', prog.site(mem[0], fn))
+    # node_admittance_matrix works on the network without exactly its ideal voltage sources
+    f = prog.func(NA, 'node_admittance_matrix')
+    st = [s_ for s_ in f.node.body if isinstance(s_, _ast.Assign) and isinstance(s_.value, _ast.Call) and _ast.unparse(s_.value.func) == 'Network']
+    okn = None
+    if st:
+        ev = new_ev(prog); ev.opaque_fns |= {('Network.elements', 'is_ideal_voltage_source')}
+        t = ev.ev(st[0].value, {'__parent__': None, 'network': A('network')}, m, 1)
+        envn = dict(env, Network=ev.ref_of(prog.resolve(prog.mod('Network.network'), 'Network')), is_ideal_voltage_source=ev.ref_of(prog.resolve(prog.mod('Network.elements'), 'is_ideal_voltage_source')))
+        e3 = ev.fresh(); e3.opaque_fns = set(ev.opaque_fns)
+        sp = e3.ev(_ast.parse("Network(branches=[b for b in network.branches if not is_ideal_voltage_source(b.element)], node_zero_label=network.node_zero_label)", mode='eval').body, dict({'__parent__': None}, **envn), m, 0)
+        okn = True if term_equal(t, sp) else (None if has_opaque(t) else False)
+    rep.ob('R01.Y', 'without-ideal-voltage-sources', okn, 'Y is assembled from all branches except the ideal voltage sources, same reference node', f.site)
 
 
 def solve_path(rep, prog):
